@@ -74,7 +74,25 @@ theorem spellerPost_geo (hrc : ComposeGeoSpec env.recompose) {r : Ctx × Bool} (
     · exact spellerAutoClear_geo hrc h
     · exact h
 
-theorem spellerProcess_geo (hrc : ComposeGeoSpec env.recompose) (k : Key) {c : Ctx} (h : GeoInv c) :
+/-- Schemas on which Speller::AutoSelectPreviousMatch returns at once (`auto_select` off, or a
+`max_code_length` set).  The geometric theorems are proved for these.  NOT proved for the remaining
+class (auto_select without a code-length bound): AutoSelectPreviousMatch pops the last segment and
+pushes back the copy it took before the key was added, without comparing positions; that the copy
+starts where the popped segment started is a relation between Compose on `input` and on
+`input ++ [key]` (the abc segmentor extends the last segment in place) which the invariant
+over single states does not carry.  That class is tied by the differential runs (schema `vs_auto`). -/
+def NoPrevMatch (env : Env) : Prop := env.autoSelect = false ∨ env.maxCodeLength > 0
+
+theorem autoSelectPreviousMatch_off (hnp : NoPrevMatch env) (prev : Option Seg) (c : Ctx) :
+    autoSelectPreviousMatch env prev c = (c, false) := by
+  unfold autoSelectPreviousMatch
+  rcases hnp with h | h
+  · simp [h]
+  · by_cases ha : env.autoSelect = true
+    · simp [ha, h]
+    · simp [ha]
+
+theorem spellerProcess_geo (hrc : ComposeGeoSpec env.recompose) (hnp : NoPrevMatch env) (k : Key) {c : Ctx} (h : GeoInv c) :
     GeoInv (spellerProcess env k c).1 := by
   unfold spellerProcess
   split
@@ -88,7 +106,10 @@ theorem spellerProcess_geo (hrc : ComposeGeoSpec env.recompose) (k : Key) {c : C
         · exact h
         · split
           · exact h
-          · exact spellerPost_geo hrc (autoSelectUniqueCandidate_geo hrc
+          · unfold spellerTail
+            rw [autoSelectPreviousMatch_off hnp]
+            simp only [Bool.false_and, Bool.false_eq_true, if_false]
+            exact spellerPost_geo hrc (autoSelectUniqueCandidate_geo hrc
               (beginEditing_geo (pushInput_geo hrc (spellerPre_geo hrc _ h) _)))
 
 /-! selector -/
@@ -247,28 +268,28 @@ theorem editorProcess_geo (hrc : ComposeGeoSpec env.recompose) (fluid : Bool) (k
 
 /-! chain and API -/
 
-theorem procRun_geo (hrc : ComposeGeoSpec env.recompose) (p : Proc) (k : Key) {c : Ctx} (h : GeoInv c) :
+theorem procRun_geo (hrc : ComposeGeoSpec env.recompose) (hnp : NoPrevMatch env) (p : Proc) (k : Key) {c : Ctx} (h : GeoInv c) :
     GeoInv (procRun env p k c).1 := by
   unfold procRun
   cases p <;> dsimp only
-  · exact spellerProcess_geo hrc k h
+  · exact spellerProcess_geo hrc hnp k h
   · exact selectorProcess_geo hrc k h
   · exact navigatorProcess_geo hrc k h
   · exact editorProcess_geo hrc false k h
   · exact editorProcess_geo hrc true k h
   · exact h
 
-theorem chain_geo (hrc : ComposeGeoSpec env.recompose) (k : Key) : ∀ (ps : List Proc) {c : Ctx}, GeoInv c →
+theorem chain_geo (hrc : ComposeGeoSpec env.recompose) (hnp : NoPrevMatch env) (k : Key) : ∀ (ps : List Proc) {c : Ctx}, GeoInv c →
     GeoInv (chain env k ps c).1
   | [], _, h => h
   | p :: ps, c, h => by
     unfold chain
-    have h1 := procRun_geo hrc p k h
+    have h1 := procRun_geo hrc hnp p k h
     dsimp only
     split
     · exact h1
     · exact h1
-    · exact chain_geo hrc k ps h1
+    · exact chain_geo hrc hnp k ps h1
 
 theorem onCurrentPage_geo {verb : Ctx → Nat → Ctx × Bool} (hv : ∀ c i, GeoInv c → GeoInv (verb c i).1)
     (i : Nat) {c : Ctx} (h : GeoInv c) : GeoInv (onCurrentPage env c i verb).1 := by
@@ -282,11 +303,11 @@ theorem onCurrentPage_geo {verb : Ctx → Nat → Ctx × Bool} (hv : ∀ c i, Ge
       · exact hv _ _ h
 
 /-- every API operation preserves the geometric invariant -/
-theorem apiStep_geo (hrc : ComposeGeoSpec env.recompose) (op : Op) {c : Ctx} (h : GeoInv c) :
+theorem apiStep_geo (hrc : ComposeGeoSpec env.recompose) (hnp : NoPrevMatch env) (op : Op) {c : Ctx} (h : GeoInv c) :
     GeoInv (apiStep env c op).1 := by
   unfold apiStep
   cases op <;> dsimp only
-  · exact chain_geo hrc _ _ h
+  · exact chain_geo hrc hnp _ _ h
   · exact select_geo hrc h _
   · exact onCurrentPage_geo (fun c i hc => select_geo hrc hc i) _ h
   · exact highlight_geo hrc h _
@@ -315,11 +336,11 @@ theorem geoInv_of_no_segs {c : Ctx} (h : c.comp.segs = []) : GeoInv c :=
 theorem init_geo : GeoInv ({} : Ctx) := geoInv_of_no_segs rfl
 
 /-- the geometric invariant holds in every reachable state -/
-theorem runOps_geo (hrc : ComposeGeoSpec env.recompose) (ops : List Op) {c : Ctx} (h : GeoInv c) :
+theorem runOps_geo (hrc : ComposeGeoSpec env.recompose) (hnp : NoPrevMatch env) (ops : List Op) {c : Ctx} (h : GeoInv c) :
     GeoInv (runOps env c ops) := by
   unfold runOps
   induction ops generalizing c with
   | nil => exact h
-  | cons op ops ih => exact ih (apiStep_geo hrc op h)
+  | cons op ops ih => exact ih (apiStep_geo hrc hnp op h)
 
 end RimeModel.Session
